@@ -64,9 +64,8 @@ theorem symPad_zero (x : List α) : symPad x 0 0 = x := by
 /-- **torch_frames_eq_numpy.** For every signal long enough to yield a frame (`N ≥ L/2 + 1`; in particular the
 property's `N ≥ frame_length`) the PyTorch framing succeeds (no read outside the storage) and yields exactly
 `compute_full`'s frames. -/
-theorem torch_frames_eq_numpy (c : Cfg) (w : WF c) (x : List α) :
+theorem torch_frames_eq_numpy (c : Cfg) (hS : 0 < c.S) (x : List α) :
     TorchStft.frames c x = some (full c x) := by
-  have hS := w.hS; have hSL := w.hSL
   unfold TorchStft.frames full
   by_cases hshort : x.length < c.L / 2 + 1
   · simp [hshort]
@@ -74,8 +73,9 @@ theorem torch_frames_eq_numpy (c : Cfg) (w : WF c) (x : List α) :
   generalize hnf : (x.length + c.S / 2) / c.S = nf
   obtain ⟨d1, d2⟩ := div_facts (x.length + c.S / 2) c.S hS
   rw [hnf] at d1 d2
-  have hnf1 : 1 ≤ nf := by
-    rw [← hnf]; exact (Nat.le_div_iff_mul_le hS).mpr (by omega)
+  by_cases hnf0 : nf = 0
+  · subst hnf0; simp [TorchStft.asStrided, cut]
+  have hnf1 : 1 ≤ nf := by omega
   have e : ((nf : Int) - 1) * c.S = (((nf - 1) * c.S : Nat) : Int) := by
     rw [Int.natCast_mul]; congr 1; omega
   rw [e]
